@@ -23,6 +23,7 @@ KNOWN_HELPERS = {
     '_check_key_valid', '_filtered_range', '_x', '_y',
 }
 MAX_DEPTH = 3
+DEMOTABLE = {'_package_spin_results'}
 
 
 def _is_min_scan(h):
@@ -204,6 +205,72 @@ def _dead_after(fnode, stmt, call):
     return tuple(sorted((names & own) - live - decl))
 
 
+def _const_truth(t):
+    """truth value of a test that is a constant (after a constant argument was substituted), else None"""
+    if isinstance(t, ast.Constant):
+        return bool(t.value)
+    if isinstance(t, ast.UnaryOp) and isinstance(t.op, ast.Not):
+        v = _const_truth(t.operand)
+        return None if v is None else not v
+    return None
+
+
+def _prune_constant_branches(stmts):
+    """`if True: A else: B` -> A, `if False: A else: B` -> B (branches decided by a constant argument of an inlined helper);
+    conditional expressions likewise."""
+    class X(ast.NodeTransformer):
+        def visit_IfExp(self, node):
+            self.generic_visit(node)
+            v = _const_truth(node.test)
+            return node if v is None else (node.body if v else node.orelse)
+    out = []
+    for st in stmts:
+        st = X().visit(st)
+        if isinstance(st, ast.If):
+            v = _const_truth(st.test)
+            if v is not None:
+                out += _prune_constant_branches(st.body if v else st.orelse)
+                continue
+        for field in ('body', 'orelse', 'finalbody'):
+            blk = getattr(st, field, None)
+            if isinstance(blk, list) and blk and isinstance(blk[0], ast.stmt) and not isinstance(st, (ast.FunctionDef, ast.ClassDef)):
+                nb = _prune_constant_branches(blk)
+                setattr(st, field, nb if (nb or field != 'body') else [ast.Pass()])
+        out.append(st)
+    return out
+
+
+def _as_single_return(body):
+    """`if C: return A` ... `return B` (guard clauses that only return) as one `return A if C else B`; None when the body is
+    not of that form."""
+    if len(body) == 1 and isinstance(body[0], ast.Return):
+        return None          # already single
+    def conv(stmts):
+        if not stmts:
+            return None
+        st = stmts[0]
+        if isinstance(st, ast.Return) and len(stmts) == 1:
+            return st.value if st.value is not None else ast.Constant(value=None)
+        if isinstance(st, ast.If):
+            then = conv(st.body)
+            if then is None:
+                return None
+            rest = conv(st.orelse) if st.orelse else conv(stmts[1:])
+            if st.orelse and len(stmts) > 1:
+                return None
+            if rest is None:
+                return None
+            return ast.IfExp(test=st.test, body=then, orelse=rest)
+        return None
+    e = conv(list(body))
+    if e is None:
+        return None
+    r = ast.Return(value=e)
+    ast.copy_location(r, body[0])
+    ast.fix_missing_locations(r)
+    return r
+
+
 def _tuple_handback(targets, rets, argname, param):
     """`.., a, .. = h(.., a, ..)` where every return of h hands the final value of the parameter back in that position."""
     if not (targets and len(targets) == 1 and isinstance(targets[0], ast.Tuple) and rets):
@@ -318,6 +385,8 @@ def expand_call(call, helper, kind, targets, uid, self_arg=None, dead=()):
                     c_.keywords = newk
     for s_ in body:
         _bind_unbound_calls(s_, self_arg.id if isinstance(self_arg, ast.Name) else None)
+    if any(isinstance(v_, ast.Constant) for v_ in mapping.values()):
+        body = _prune_constant_branches(body)
 
     def make_result(value):
         if kind == 'return':
@@ -1051,9 +1120,24 @@ def inline_program(prog):
     log = prog.inlined_log = []
     inlined_nodes = {}
 
+    # a reference helper whose parameter list no longer matches the reference (same count, other roles: e.g. it is handed
+    # the model instead of the model's offset) is read through its call sites like a new helper - only for the helpers whose
+    # rules also decide the written-out form
+    demoted = set()
+    for (rel, cname), table in type(prog).PRIVATE_HELPERS.items():
+        for hname, ref in table.items():
+            if hname not in DEMOTABLE or cname is not None:
+                continue
+            try:
+                h = prog.func('%s.%s' % (rel.split('/')[-1][:-3], hname))
+            except Exception:
+                continue
+            if h.all_params != ref:
+                demoted.add(hname)
+
     def find_helper(fn, call):
         f = call.func
-        if isinstance(f, ast.Name) and f.id.startswith('_') and f.id not in KNOWN_HELPERS:
+        if isinstance(f, ast.Name) and f.id.startswith('_') and (f.id not in KNOWN_HELPERS or f.id in demoted):
             r = prog.resolve_expr(fn.module, f)
             if r and r[0] == 'func' and r[1].node is not fn.node and r[1].outer is None and not _is_min_scan(r[1].node):
                 return r[1].node, None
@@ -1143,6 +1227,9 @@ def inline_program(prog):
                 return node
             body = _strip_doc(h.body)
             a = h.args
+            single = _as_single_return(body)
+            if single is not None:
+                body = [single]
             if len(body) != 1 or not isinstance(body[0], ast.Return) or body[0].value is None or a.vararg or a.kwarg or a.kwonlyargs:
                 return node
             params = [x.arg for x in a.posonlyargs + a.args]
